@@ -39,7 +39,7 @@ class C06(Config):
     ]
     assumptions = [
         "the three pools are updated inside one database transaction (an error restores the pre-state)",
-        "the policy of a real-wallet CPut case is GROUND TRUTH built by the harness from the network's NU6.3 activation height and the configured interval (histories with activation at the birthday, strictly inside the first batch and inside a later batch; no in-flight migration), not the policy the code derived",
+        "the policy of a real-wallet CPut case is GROUND TRUTH built by the harness from the network's NU6.3 activation height and the configured interval (histories with activation at the birthday, strictly inside the first batch and inside a later batch) united with the anchor_bucket_interval of every NON-terminal row of orchard_ironwood_migrations (rows with other grids inserted and finished by the harness; terminal rows must not contribute), not the policy the code derived",
         "debug-profile integer semantics (overflow panics)",
     ]
     partial_clauses = [
